@@ -66,6 +66,8 @@ def exp_values(r, T):
         str(T * 1000), str((T - 50) * 1000), "", "abc", "-1", " 5", "05", "1e9", "1.5", "+5", "५", str(T - 1) + " ", "0x10",
         "-5", "+" + str(T - 1), " " + str(T - 1), str(T - 1) + "\n", "1_000", "1_0", "\t7", "٣", "5\x00", "٠",
         T - 1, T + 1, 5, float(T - 1), None,
+        # values longer than what the LMDB tag index keys verbatim (they are indexed by digest): text, digits, digits + text
+        "x" * 300, "9" * 300, str(T - 1) + " " * 300, "é" * 200,
     ])
 
 
